@@ -553,6 +553,12 @@ class QuicConnection:
             spin_bit=self._spin_bit,
             version=self._version,
         )
+        # limit data on un-validated network paths
+        if not network_path.is_validated:
+            builder.max_total_bytes = (
+                network_path.bytes_received * 3 - network_path.bytes_sent
+            )
+
         if self._close_pending:
             epoch_packet_types = []
             if not self._handshake_confirmed:
@@ -561,17 +567,20 @@ class QuicConnection:
                     (tls.Epoch.HANDSHAKE, QuicPacketType.HANDSHAKE),
                 ]
             epoch_packet_types.append((tls.Epoch.ONE_RTT, QuicPacketType.ONE_RTT))
-            for epoch, packet_type in epoch_packet_types:
-                crypto = self._cryptos[epoch]
-                if crypto.send.is_valid():
-                    builder.start_packet(packet_type, crypto)
-                    self._write_connection_close_frame(
-                        builder=builder,
-                        epoch=epoch,
-                        error_code=self._close_event.error_code,
-                        frame_type=self._close_event.frame_type,
-                        reason_phrase=self._close_event.reason_phrase,
-                    )
+            try:
+                for epoch, packet_type in epoch_packet_types:
+                    crypto = self._cryptos[epoch]
+                    if crypto.send.is_valid():
+                        builder.start_packet(packet_type, crypto)
+                        self._write_connection_close_frame(
+                            builder=builder,
+                            epoch=epoch,
+                            error_code=self._close_event.error_code,
+                            frame_type=self._close_event.frame_type,
+                            reason_phrase=self._close_event.reason_phrase,
+                        )
+            except QuicPacketBuilderStop:
+                pass
             self._logger.info(
                 "Connection close sent (code 0x%X, reason %s)",
                 self._close_event.error_code,
@@ -589,12 +598,6 @@ class QuicConnection:
                 and builder.max_flight_bytes < self._max_datagram_size
             ):
                 builder.max_flight_bytes = self._max_datagram_size
-
-            # limit data on un-validated network paths
-            if not network_path.is_validated:
-                builder.max_total_bytes = (
-                    network_path.bytes_received * 3 - network_path.bytes_sent
-                )
 
             # A packet number space which cannot send, for instance because
             # of the congestion window, must not keep the other spaces from
